@@ -2472,6 +2472,31 @@ def run_C01(pid, tier, seed, model_ok=True):
     work = os.path.join(CACHE, 'work-%s-flt-%d' % (pid, os.getpid()))
     os.makedirs(work, exist_ok=True)
     try:
+        # the reported PATH: the same guarantees when the directories given at init contain spaces, an apostrophe and
+        # non-ASCII characters (the model does not see paths; the traces must not change)
+        ctx2 = Ctx(seed=seed)
+        try:
+            rnd2 = random.Random(seed + 3)
+            al2 = gen.Alphabet(ctx2)
+            wl2 = ['q', 'p', 's', 'ok', 'fail', 'R', 'u1', 'u2', 'u3', 'rb1', 'rb2', 'c', 'dF1', 'dT2', 'dS1', 'dPg']
+            hs2 = gen.random_walks(al2, wl2, [1] * len(wl2), 40 if tier == 'quick' else 600, (8, 30), rnd2, name='odd')
+            header2 = ctx2.header() + ['paths odd']
+            model2, impl2, ex2 = run_both(header2, hs2, os.path.join(work, 'odd'), impl_only=not model_ok)
+            a['extras'] += ex2
+            if model_ok:
+                for (h, idx, ml, il) in diff_traces(model2, impl2):
+                    a['divergences'].append((h, idx, ml, il, dict(hs2)[h], header2))
+            for name, ops in hs2:
+                tr = impl2.get(name)
+                if tr is None or len(tr) != len(ops):
+                    a['extras'].append('odd paths: incomplete implementation trace for %s' % name)
+                    continue
+                a['evaluations'] += len(ops)
+                for (idx, msg) in monitors.mon_C01(ctx2, [gen.parse_op(o) for o in ops], [parse_line(l) for l in tr]):
+                    a['monitor_fail'].append((name, idx, 'directories with spaces and non-ASCII names: ' + msg, ops, header2))
+            a['dist'] = dict(a.get('dist', {}), odd_directory_names_histories=len(hs2))
+        finally:
+            ctx2.cleanup()
         damaged_x_failing_call(a, pid, seed, None, ('dF2', 'dT2'), work)
         damaged_x_failing_call(a, pid, seed, KEY1, ('dF2', 'dS2'), work)
     finally:
